@@ -103,12 +103,20 @@ class B:
     def pro_op(self):
         name = self.draw(st.sampled_from(sorted(self.lists)))
         t, n = self.lists[name]
-        op = self.draw(st.sampled_from(["append", "remove_present", "read", "read", "self_assign", "reassign", "alias", "helper_read", "helper_mutate", "empty_range"]))
+        op = self.draw(st.sampled_from(["append", "remove_present", "drain_refill", "read", "read", "self_assign", "reassign", "alias", "helper_read", "helper_mutate", "empty_range"]))
         d = self.pro
         if op == "append":
             d.append(f"{name}.append({self.operand(t, d, (name, n))})"); self.lists[name][1] += 1
-        elif op == "remove_present" and n >= 2 and t in ("int", "str"):
+        elif op == "remove_present" and n >= 1 and t in ("int", "str"):
             d.append(f"{name}.remove({name}[{self.draw(st.integers(0, n - 1))}])"); self.lists[name][1] -= 1
+        elif op == "drain_refill" and n >= 1 and t in ("int", "str"):
+            # empty the list element by element (the last remove leaves no buffer), then grow it again from nothing
+            d += [f"{name}.remove({name}[0])"] * n + [f"mon.write(len({name}))"]
+            k = self.draw(st.integers(0, 2))
+            d += [f"{name}.append({self.operand(t, d)})" for _ in range(k)]
+            if k == 0 and t == "int" and self.draw(st.booleans()):
+                d.append(f"{name} = [{self.elem(t)}]"); k = 1
+            self.lists[name][1] = k
         elif op == "self_assign":
             d.append(f"{name} = {name}")
         elif op == "reassign" and t in ("int", "float") and n >= 1:
@@ -146,7 +154,7 @@ class B:
             return
         name = self.draw(st.sampled_from(sorted(cands)))
         t, n = self.lists[name]
-        op = self.draw(st.sampled_from(["append_remove", "append_remove", "rotate", "read", "grow", "loop_alloc", "reassign_in_loop", "str_build", "str_const"]))
+        op = self.draw(st.sampled_from(["append_remove", "append_remove", "rotate", "drain_refill", "read", "grow", "loop_alloc", "reassign_in_loop", "str_build", "str_const"]))
         d = self.loop
         if op == "append_remove" and t in ("int", "str"):
             if t == "int":
@@ -159,6 +167,16 @@ class B:
         elif op == "rotate" and t in ("int", "str"):
             # [a, b, c] -> append own first element -> remove its first occurrence: constant length, the buffer is reallocated twice
             d += [f"{name}.append({name}[0])", f"mon.write({name}[-1])", f"{name}.remove({name}[-1])"]
+            self.mut_in_loop = True
+        elif op == "drain_refill" and t in ("int", "str") and n <= 3:
+            # every pass empties the list and rebuilds it to the same length: live data constant, buffer freed and re-created
+            if t == "int":
+                vals = [self.elem("int") for _ in range(n)]
+            else:
+                v = self.nm("v")
+                self.pro.append(f"{v} = 'q7'")
+                vals = [v] * n
+            d += [f"{name}.remove({name}[0])"] * n + [f"mon.write(len({name}))"] + [f"{name}.append({x})" for x in vals]
             self.mut_in_loop = True
         elif op == "grow":
             d.append(f"{name}.append({self.operand(t, self.pro, (name, n))})")
